@@ -794,10 +794,10 @@ def run(ctx):
     if "time" not in position.PositionArray._attributes():
         _position.register_attribute(position.PositionArray, "time")     # as `where` does; public registration API
 
-    ok = True if os.environ.get('C10_NOPROVE') else ctx.prove(THEOREMS)
+    ok = ctx.prove(THEOREMS)
     rng = ctx.rng
-    n_attr = 3200 if ctx.quick() else 40000
-    n_ds = 300 if ctx.quick() else 4000
+    n_attr = 3200 if ctx.quick() else 30000
+    n_ds = 300 if ctx.quick() else 3000
 
     # ---- A. codec
     casesA, metaA = [], []
